@@ -15,7 +15,7 @@ import (
 func main() {
 	probe.Init()
 	ctx := context.Background()
-	for _, cs := range probe.Plan() {
+	for cs, more := probe.Next(); more; cs, more = probe.Next() {
 		{
 			custom, sc := cs.Custom, cs.Sc
 			probe.SetCase(cs)
